@@ -236,7 +236,8 @@ struct RefReader {
     const uint8_t *bytes;   // copy of data.raw
     uint64_t size;          // claimed data.size
     uint64_t off;
-    bool can(uint64_t n) const { return n <= MAXSZ && off <= size && n <= size - off && off + n <= MAXSZ; }
+    // a claimed size beyond the buffer is an out-of-range length: every (non-empty) read of such a message is an error
+    bool can(uint64_t n) const { return size <= MAXSZ && n <= MAXSZ && off <= size && n <= size - off && off + n <= MAXSZ; }
 };
 enum { oInt, oString, oPod, oFixed, oKinds };
 struct Op { unsigned kind; size_t n; };
@@ -326,7 +327,7 @@ static void symAt(uint64_t pos) { if (pos < MAXSZ) copyBuf[pos] = vf_nondet_u8("
 // Structured adversarial message: the get* sequence is chosen first and symbolic bytes are placed where a reader of
 // that sequence looks (first/last bytes of every part), string length fields are symbolic ints confined to
 // int range minus (3, maxSize-5): every negative, every too-large value and both boundary windows. data.size is any
-// 64-bit value (see the KNOWN-FINDING note).
+// 64-bit value, including values far beyond maxSize.
 extern "C" void c58_adversarial(void)
 {
     vf_quiet();
@@ -354,12 +355,8 @@ extern "C" void c58_adversarial(void)
         if (lo > MAXSZ) lo = MAXSZ;     // nothing to place beyond the buffer
     }
     const uint64_t size = vf_nondet_u64("size");
-#ifndef C58_INCLUDE_OVERSIZE
-    // KNOWN-FINDING candidate: a received data.size > maxSize is trusted by getRaw() (its only test is
-    // Must(rawSize <= data.size - offset)), so get*() reads past data.raw and, with two or more large parts, past the
-    // TypedMsgHdr object. Compile with -DC58_INCLUDE_OVERSIZE to see the counterexample.
-    vf_assume(size <= MAXSZ);
-#endif
+    // A received data.size > maxSize used to be trusted by getRaw() (heap over-read); repaired in /repo by the
+    // 'fix: TypedMsgHdr::getRaw() trusted a received data.size ...' commit. The size is therefore unconstrained here.
     receiveAndRead(copyBuf, size, ops, nops);
 }
 
